@@ -122,7 +122,12 @@ func c10events() []int {
 // VHPubDeliver: stable subscriptions, receivers draining.
 func VHPubDeliver() {
 	nsub := vChoose("nsub", vParam("SUBS")+1)
-	s := c10new(nsub)
+	var s *c10ps
+	if vParam("PLAIN") == 1 {
+		s = c10newOpt(nsub, false)
+	} else {
+		s = c10new(nsub)
+	}
 	evs := c10events()
 	variant := vChoose("variant", 6)
 	s.receivers()
